@@ -249,8 +249,11 @@ class StmtMixin:
             self.heap = heap_then
         elif ft_then:
             self.frame.env, self.heap = env_then, heap_then
+            # the rest of the function runs only when the test held (the other branch returned/raised)
+            self.guards = saved_guards + (Guard(st.test, True, tv, self.frame.fn),)
         elif ft_else:
             self.frame.env, self.heap = env_else, heap_else
+            self.guards = saved_guards + (Guard(st.test, False, tv, self.frame.fn),)
         else:
             self.frame.env, self.heap = env_else, heap_else
             return False
